@@ -24,6 +24,7 @@ type State struct {
 	allocs []SliceV                // slices made on this path (allocation model)
 	fieldOv map[string]Value       // fields of symbolic structs assigned on this path, by (struct name, key, field)
 	ghostv  map[string]*Term       // current value of the ghost variables changed on this path (`ghostvar`)
+	refTop  *Term                  // identity of the most recently allocated external object (RefV); nil: the entry watermark
 }
 
 func newState() *State {
@@ -51,6 +52,7 @@ func (s *State) clone() *State {
 	n.scope = append([]types.Object(nil), s.scope...)
 	n.path = append([]*Term(nil), s.path...)
 	n.allocs = append([]SliceV(nil), s.allocs...)
+	n.refTop = s.refTop
 	if s.ghostv != nil {
 		n.ghostv = make(map[string]*Term, len(s.ghostv))
 		for k, v := range s.ghostv {
@@ -479,6 +481,9 @@ func (c *FuncCtx) symValueK(st *State, name string, t types.Type, key []*Term) V
 			c.sliceFacts(st, sl)
 			return sl
 		case *types.Pointer:
+			if et, ok := extRefType(t); ok {
+				return c.symRef(st, leafTerm(name+".ref", key, SInt), et)
+			}
 			if _, ok := u.Elem().Underlying().(*types.Struct); ok {
 				return &StructV{T: u.Elem(), Prefix: name, F: map[string]Value{}, Key: key}
 			}
@@ -512,6 +517,9 @@ func (c *FuncCtx) symValueK(st *State, name string, t types.Type, key []*Term) V
 	case *types.Slice:
 		return c.symSlice(st, name, u.Elem())
 	case *types.Pointer:
+		if et, ok := extRefType(t); ok {
+			return c.symRef(st, Var(name+".ref", SInt), et)
+		}
 		if _, ok := u.Elem().Underlying().(*types.Struct); ok {
 			return &StructV{T: u.Elem(), Prefix: name, F: map[string]Value{}}
 		}
@@ -520,6 +528,54 @@ func (c *FuncCtx) symValueK(st *State, name string, t types.Type, key []*Term) V
 		return &StructV{T: t, Prefix: name, F: map[string]Value{}}
 	}
 	return OpaqueV{Desc: name, T: t}
+}
+
+// ---- external objects modelled by one ghost integer (RefV) ----
+
+// rbrk0 is the allocation watermark of external objects at function entry: every object
+// reachable from the inputs has an identity at or below it, every allocation a larger one than
+// all earlier ones of the path (so: different from them).
+var rbrk0 = Var("rbrk0", SInt)
+
+func (c *FuncCtx) refTop(st *State) *Term {
+	if st.refTop == nil {
+		return rbrk0
+	}
+	return st.refTop
+}
+
+func (c *FuncCtx) symRef(st *State, id *Term, et types.Type) RefV {
+	st.assume(Le(ConstI(1), id))
+	if entryDerived(id) {
+		st.assume(Le(id, rbrk0))
+	}
+	return RefV{ID: id, T: et}
+}
+
+// allocRef: a newly allocated external object (new(T), or the result of a callee whose contract
+// says `refnew`): its identity is above everything allocated before on this path.
+func (c *FuncCtx) allocRef(st *State, et types.Type, tag string) RefV {
+	id := Var(c.freshName("ref."+tag), SInt)
+	st.assume(And(Le(ConstI(1), id), Lt(c.refTop(st), id)))
+	st.refTop = id
+	c.assumed = append(c.assumed, "external objects (math/big values) are modelled by one ghost integer each, in a ghost heap indexed by an allocation identity; allocations get increasing identities; methods on them follow ASSUMED `ext:` contracts")
+	return RefV{ID: id, T: et}
+}
+
+// bumpRefTop: allocations may have happened (a loop body, a callee without frame): the watermark is unknown but not lower.
+func (c *FuncCtx) bumpRefTop(st *State) {
+	nt := Var(c.freshName("reftop"), SInt)
+	st.assume(Le(c.refTop(st), nt))
+	st.refTop = nt
+}
+
+func (c *FuncCtx) refVal(st *State, r RefV) *Term {
+	return Select(c.heap(st, refHeapName(r.T)), r.ID)
+}
+
+func (c *FuncCtx) setRefVal(st *State, r RefV, v *Term) {
+	hn := refHeapName(r.T)
+	st.heaps[hn] = Store(c.heap(st, hn), r.ID, v)
 }
 
 var maxLen = pow2(40)
@@ -675,6 +731,8 @@ func (c *FuncCtx) writeCell(st *State, elem types.Type, addr *Term, v Value) {
 	var t *Term
 	if isBoolType(elem) {
 		t = Ite(asBool(v), ConstI(1), ConstI(0))
+	} else if rv, ok := v.(RefV); ok {
+		t = rv.ID // a slice of pointers to external objects holds their identities
 	} else {
 		t = asInt(v)
 	}
